@@ -4,7 +4,7 @@
    removed, a whitelist turned into a blacklist, a value misspelt, an unknown condition name)
    the corresponding lemma stops compiling and the check reports the broken obligation, then
    looks for a misclassified way with the harness. *)
-From Coq Require Import String List Bool.
+From Coq Require Import String List Bool ZArith Arith Lia.
 From Verif Require Import C18.Model C18.Spec C18.Equiv C18.StrOrder C18.Proofs.
 From VerifGen Require Import GenPolygon.
 Import ListNotations.
@@ -33,3 +33,45 @@ Proof. apply init_table_sorted. Qed.
 (* same fact by evaluation, as a cross-check of the sorting model on the actual data *)
 Lemma gen_table_sorted_computed : table_sortedb RT = true.
 Proof. vm_compute. reflexivity. Qed.
+
+(* ---- literals inside Way.Polygon / Relation.Polygon (second source tie) ----
+   The hand model (Model.way_polygon, relation_polygon) uses the strings "area", "no", "",
+   "type", "multipolygon", "boundary" and rejects fewer than 4 node refs.  The translator lists
+   the string literals of the two Go method bodies (and of the package functions they call) and
+   the minimum length implied by the length test.  Obligations, when the method was found:
+   every string the model uses occurs in the code (body or callees), the body itself mentions no
+   other string (apart from the three condition names), the length test admits exactly 4 or more.
+   Where the translator could not recognise the shape ([found = false], [None]) nothing is
+   claimed here and the behaviour is tied by correspondence only. *)
+
+Definition model_way_strings : list string := ["area"; "no"]%string.
+Definition model_rel_strings : list string := ["type"; "multipolygon"; "boundary"]%string.
+Definition model_min_nodes : Z := 4%Z.
+
+Definition literals_okb (found : bool) (direct callee required allowed : list string) : bool :=
+  negb found || (subsetb required (direct ++ callee) && subsetb direct allowed).
+
+Lemma gen_way_literals :
+  literals_okb lit_way_found lit_way_strings lit_way_callee_strings model_way_strings
+    (model_way_strings ++ [""%string; cond_all; cond_whitelist; cond_blacklist]) = true.
+Proof. vm_compute. reflexivity. Qed.
+
+Lemma gen_rel_literals :
+  literals_okb lit_rel_found lit_rel_strings lit_rel_callee_strings model_rel_strings
+    (model_rel_strings ++ [""%string]) = true.
+Proof. vm_compute. reflexivity. Qed.
+
+Lemma gen_way_min_nodes :
+  match lit_way_min_nodes with Some n => Z.eqb n model_min_nodes | None => true end = true.
+Proof. vm_compute. reflexivity. Qed.
+
+(* the model's threshold is the one named above: exactly the lists shorter than 4 are rejected
+   outright *)
+Lemma model_min_nodes_is_the_models (T : list rule) (nodes : list Z) (ts : tags) :
+  (Z.of_nat (length nodes) <? model_min_nodes)%Z = true -> way_polygon T nodes ts = Val false.
+Proof.
+  intros H. unfold way_polygon.
+  assert (E : Nat.leb (length nodes) 3 = true).
+  { apply Nat.leb_le. apply Z.ltb_lt in H. unfold model_min_nodes in H. lia. }
+  rewrite E. reflexivity.
+Qed.
